@@ -458,7 +458,7 @@ func (in *Interp) check(v Value, msg, knownID string, fr *frame) {
 // satisfiable (it is by construction, but a model is fetched to prove it
 // and to serve as a translator-validation vector).
 func (in *Interp) reach(label string) {
-	if in.reached[label] {
+	if in.reached[label] || len(in.findings) > 0 {
 		return
 	}
 	in.reached[label] = true
